@@ -46,6 +46,10 @@ def load(contract_module, cfg, overrides=None, with_summaries=True):
     interp.ctx = PathCtx([], cfg)
     mod = interp.import_module(contract_module)
     reg = list(interp.registry)
+    interp.loop_specs = {}
+    for kind, a, k, f in reg:
+        if kind == "loop_spec":
+            interp.loop_specs[(a[0], a[1])] = (k, f)
     if with_summaries:
         for kind, a, k, f in reg:
             if kind == "summary":
@@ -117,6 +121,13 @@ def materialize(interp, name, td, depth=0):
             ctx.register_input(name, "const", None)
             return None
         return materialize(interp, name, td.args[0], depth + 1)
+    if k == "chunks":
+        s = z3.Const(name, SeqSort)
+        n = z3.Int(name + "#count")
+        ctx.assume(n >= 0)
+        ctx.register_input(name, "bytes", s)
+        ctx.register_input(name + "#count", "int", n)
+        return PyDeque([], rest=ops.mk_open_rest(ctx, s, n))
     if k == "list" and td.args[1] is None:
         if td.args[0].kind != "int" or td.args[0].args != (None, None):
             raise Unsupported("open lists are lists of unconstrained ints")
@@ -189,7 +200,7 @@ def run_harness(loaded: Loaded, ob, cfg):
             ctx.fail("no-escape", kind="escape", detail=f"uncaught {cls}{pr.exc.fields.get('args', '')!r:.200} in harness at {pr.where}")
 
     pcfg = cfg
-    if "max_paths" in opts or "check_timeout_ms" in opts or "loop_unroll" in opts:
+    if any(k in cfg.__dict__ for k in opts):
         pcfg = Config(**{**cfg.__dict__, **{k: v for k, v in opts.items() if k in cfg.__dict__}})
         interp.cfg = pcfg
     try:
